@@ -28,10 +28,7 @@ class QuaHoldList(HoldList[QuaHold], QuaNoteList[QuaHold]):
             axis=1,
         )
         df.column -= 1
-        df = df.reindex(
-            df.columns.union(["offset", "column", "keysounds", "length"], sort=False),
-            axis=1,
-        )
+        df = df.reindex(["offset", "column", "keysounds", "length"], axis=1)
         df.offset = df.offset.fillna(0)
         df.column = df.column.fillna(0)
         df.length = df.length.fillna(0)
